@@ -5,6 +5,14 @@ Import ListNotations.
 From Osmo Require Import Base.Obs Base.DecModel C11.Model.
 Open Scope Z_scope.
 
+(* an operation of the model, or the environment's slash of a validator *)
+Inductive eop := EOp (o : op) | ESlash (order : list (Z * Z)) (v factor : Z).
+Definition eapply (cfg : config) (st : state) (e : eop) : state * Z * Z :=
+  match e with
+  | EOp o => apply cfg st o
+  | ESlash order v f => match slash st order v f with Ok st' => (st', 0, 0) | Err x => (st, x, 0) end
+  end.
+
 Record case := mkCase {
   c_cfg : config;
   c_t0 : Z;
@@ -12,7 +20,7 @@ Record case := mkCase {
   c_mults : list (Z * Z);            (* multipliers after setup *)
   c_supply : Z; c_offset : Z;
   c_denoms : list Z;                 (* denom indices observed *)
-  c_ops : list op;
+  c_ops : list eop;
   c_expect : list Z }.
 
 Definition kindz (k : skind) : Z := match k with Staking => 0 | Unstaking => 1 end.
@@ -59,11 +67,11 @@ Definition flat_row (cfg : config) (denoms vals : list Z) (st : state) (code new
   ++ flat_map (fun d => flat_map (fun v => flat_acc cfg st d v) vals) denoms
   ++ flat_conns st ++ flat_synths st ++ flat_locks st ++ [total_sf st].
 
-Fixpoint scan (cfg : config) (denoms vals : list Z) (st : state) (ops : list op) : list Z :=
+Fixpoint scan (cfg : config) (denoms vals : list Z) (st : state) (ops : list eop) : list Z :=
   match ops with
   | [] => []
   | o :: r =>
-    let '(st', code, id) := apply cfg st o in
+    let '(st', code, id) := eapply cfg st o in
     flat_row cfg denoms vals st' code id ++ scan cfg denoms vals st' r
   end.
 
